@@ -42,6 +42,17 @@ pub struct NoInfoG<T>(pub T);
 pub struct Inner<T>(pub T);
 #[derive(TypeInfo, Encode)]
 pub struct InnerLt<'a>(pub &'a str);
+/// a user-defined `encoded_as` target: a u32 written as 4 big-endian bytes
+#[derive(TypeInfo, Encode)]
+pub struct BigEndian32(pub [u8; 4]);
+impl From<&u32> for BigEndian32 {
+    fn from(v: &u32) -> Self {
+        BigEndian32(v.to_be_bytes())
+    }
+}
+impl<'a> scale::EncodeAsRef<'a, u32> for BigEndian32 {
+    type RefType = BigEndian32;
+}
 '''
 
 
